@@ -6,6 +6,21 @@ From BT Require Import Base.Util Base.LE Base.Float Generated.Consts Model.RTree
   Proofs.C10ChromTree Spec.FormatEmit Spec.FormatWf Model.ReadBed_C10.
 Local Open Scope N_scope.
 
+(* field access on a record with nothing behind it *)
+Lemma dec_fld_nil big fs o w x : fld_at fs o = Some (w, x) -> fits w x ->
+  dec big (firstn w (skipn o (enc_flds big fs))) = x.
+Proof. intros H Hx. rewrite <- (app_nil_r (enc_flds big fs)). now apply dec_fld. Qed.
+Lemma dec_fld0_nil big fs w x : fld_at fs 0 = Some (w, x) -> fits w x -> dec big (firstn w (enc_flds big fs)) = x.
+Proof. intros H Hx. apply (dec_fld_nil big fs 0 w x H Hx). Qed.
+Ltac fld_step0 tac :=
+  match goal with
+  | |- context [dec ?b (firstn ?w (skipn ?o (enc_flds ?b ?fs)))] =>
+      fld_at_term (dec b (firstn w (skipn o (enc_flds b fs)))) ltac:(eapply dec_fld_nil) tac
+  | |- context [dec ?b (firstn ?w (enc_flds ?b ?fs))] =>
+      fld_at_term (dec b (firstn w (enc_flds b fs))) ltac:(eapply dec_fld0_nil) tac
+  end.
+Ltac flds0 tac := repeat (fld_step0 tac).
+
 (* ---------- picking items by index ---------- *)
 Definition pick {X} (l : list X) (ix : list nat) : list X :=
   flat_map (fun i => match nth_error l i with Some x => [x] | None => [] end) ix.
@@ -230,7 +245,7 @@ Qed.
 Lemma trees_facts t : (t < length bt)%nat ->
   length (l_trees L) = length bt /\
   tree_ok (length (tree_nodes L t)) (tree_nodes L t) (length (tree_blocks bt t)) = true /\
-  (sk_size (tree_nodes L t) (length (tree_nodes L t)) 0 <= count_nodes t (l_order L))%nat.
+  (sk_size (tree_nodes L t) (length (tree_nodes L t)) 0 <= count_nodes t (length (tree_nodes L t)) (l_order L))%nat.
 Proof.
   intros Ht. destruct wf_parts as (_ & _ & _ & _ & H & _). unfold wf_trees in H. apply andb_true_iff in H as [H1 H2].
   apply Nat.eqb_eq in H1. split; [exact H1|]. rewrite forallb_forall in H2. specialize (H2 t). cbv zeta in H2.
